@@ -19,6 +19,7 @@ from . import c01
 ID = "C18"
 TITLE = "Model objects are immutable values with a sound equality/hash/pickle contract"
 RULE = (
+    "(After a container has been compared / hashed / pickled every nested type is compared, children first, with an untouched independently built twin.  Part travel: objects pickled here - after hashing them or not - are opened in a child process with another PYTHONHASHSEED and compared, hashed and used as dict keys against objects built there.)  "
     "Cases are pairs of objects of one class built independently from two descriptions that are equal or differ by one drawn edit: "
     "serializable types (primitives, void, arrays, structures, unions, delimited, services; nested), Field / PaddingField / Constant, "
     "expression values (Rational, Boolean, String, Set), BitLengthSet (operator trees rewritten by set-preserving algebraic identities, "
